@@ -815,15 +815,30 @@ pub fn with_cell_pair(p: &Program, guards: bool, include_main: bool) -> Vec<Prog
             _ => {}
         }
     }
+    // values sent per channel (for guards on the result of a receive)
+    let mut sent: Vec<Vec<u64>> = vec![vec![]; p.objs.chans];
+    for op in p.threads.iter().flatten() {
+        if let K::Send { ch, v } = op.k {
+            sent[ch].push(v);
+        }
+    }
     let variants = |q: &Program, t: usize, pos: usize, k: K| -> Vec<Op> {
         let mut v = vec![Op::from(k.clone())];
-        if guards && pos > 0 {
-            if let K::Load { a, .. } = q.threads[t][pos - 1].k {
-                if q.threads[t][pos - 1].g.is_none() {
+        if pos > 0 && q.threads[t][pos - 1].g.is_none() {
+            match q.threads[t][pos - 1].k {
+                K::Load { a, .. } if guards => {
                     for &x in &vals[a] {
                         v.push(k.clone().when(pos - 1, Res::V(x)));
                     }
                 }
+                // "only if the message just received is this one": the access then depends on
+                // the edge from exactly that sender
+                K::Recv { ch } | K::TryRecv { ch } => {
+                    for &x in &sent[ch] {
+                        v.push(k.clone().when(pos - 1, Res::Ok(x)));
+                    }
+                }
+                _ => {}
             }
         }
         v
@@ -3147,6 +3162,90 @@ pub fn race_bare_notify_family() -> Vec<Program> {
                     K::Join { t: 1 }.into(),
                 ];
                 out.push(Program { name: "RACE-bare-notify".into(), objs: objs.clone(), threads: vec![main, w.clone(), bare.clone()] });
+            }
+        }
+    }
+    out
+}
+
+/// LIT-cas-coh: a failing compare_exchange is a read. One or two writers store to x; a thread
+/// runs a compare_exchange that cannot succeed (expected value never stored) before / after a
+/// load or a store of x; optionally a third thread reads x twice. Per-location coherence must
+/// hold across the failed CAS exactly as across a load.
+pub fn lit_cas_coh(full: bool) -> Vec<Program> {
+    let mut out = vec![];
+    let mut seen = HashSet::new();
+    let cas_os: Vec<(MO, MO)> = if full { vec![(Rlx, Rlx), (AcqRel, Acq), (Sc, Sc), (Rel, Rlx), (Acq, Acq)] } else { vec![(Rlx, Rlx), (AcqRel, Acq)] };
+    let st_os: &[MO] = if full { &[Rlx, Rel, Sc] } else { &[Rlx] };
+    for &(cs, cf) in &cas_os {
+        for &so in st_os {
+            let writers: Vec<Vec<Vec<Op>>> = vec![vec![vec![st(0, 0, so)]], vec![vec![st(0, 0, so), st(0, 0, so)]], vec![vec![st(0, 0, so)], vec![st(0, 0, so)]]];
+            let c = || cas(0, 77, 0, cs, cf);
+            let readers: Vec<Vec<Op>> = vec![
+                vec![c(), ld(0, Rlx)],
+                vec![ld(0, Rlx), c()],
+                vec![c(), c()],
+                vec![c(), st(0, 0, Rlx)],
+                vec![c(), fadd(0, 1, Rlx)],
+                vec![c(), ld(0, Rlx), ld(0, Rlx)],
+            ];
+            for w in &writers {
+                for r in &readers {
+                    for third in [false, true] {
+                        let mut ch = w.clone();
+                        ch.push(r.clone());
+                        if third {
+                            if ch.len() >= 3 {
+                                continue;
+                            }
+                            ch.push(vec![ld(0, Rlx), ld(0, Rlx)]);
+                        }
+                        let ch = canon_atomic_children(ch, 1);
+                        let p = finish_atomic_program("LIT-cas-coh", ch, Rlx);
+                        if seen.insert(p.text()) {
+                            out.push(p);
+                        }
+                    }
+                }
+            }
+        }
+    }
+    out
+}
+
+/// LIT-stale-acq: an acquire load that returns an *older* store does not synchronise with the
+/// newer one. The writer stores the data, publishes on x (release store / RMW / successful
+/// CAS) and raises a relaxed flag z; the reader sees z, then reads x with acquire (or relaxed +
+/// acquire fence) and the data: "x still old, data still old" is allowed although the
+/// publication has certainly been executed.
+pub fn lit_stale_acq(full: bool) -> Vec<Program> {
+    let mut out = vec![];
+    let pubs: Vec<Op> = if full {
+        vec![st(1, 1, Rel), st(1, 1, Sc), fadd(1, 1, Rel), fadd(1, 1, AcqRel), fadd(1, 1, Sc), swap(1, 1, Rel), cas(1, 0, 1, Rel, Rlx), cas(1, 0, 1, AcqRel, Acq)]
+    } else {
+        vec![st(1, 1, Rel), fadd(1, 1, Rel), swap(1, 1, AcqRel), cas(1, 0, 1, Rel, Rlx)]
+    };
+    for p in &pubs {
+        for pf in [false, true] {
+            // optionally a release fence in front of a relaxed form of the publication
+            let mut w: Vec<Op> = vec![st(0, 1, Rlx)];
+            if pf {
+                w.push(fence(Rel));
+            }
+            w.push(p.clone());
+            w.push(st(2, 1, Rlx));
+            for sub in 0..3 {
+                let mut r: Vec<Op> = vec![ld(2, Rlx)];
+                match sub {
+                    0 => r.push(ld(1, Acq)),
+                    1 => {
+                        r.push(ld(1, Rlx));
+                        r.push(fence(Acq));
+                    }
+                    _ => r.push(ld(1, Sc)),
+                }
+                r.push(ld(0, Rlx));
+                out.push(with_main("LIT-stale-acq", atomics(3), vec![], vec![w.clone(), r], vec![], vec![]));
             }
         }
     }
